@@ -269,7 +269,7 @@ def _nt(doc, drops):
 
 def plan(tier):
     if tier == "quick":
-        return [{"name": "conv%d" % i, "n": 50, "depth": 2} for i in range(16)]
+        return [{"name": "conv%d" % i, "n": 150, "depth": 2} for i in range(16)]
     return [{"name": "conv%d" % i, "n": 2500, "depth": 3} for i in range(16)]
 
 
